@@ -201,6 +201,11 @@ PROPS["C06"] = {
         _p("c06::c06_frame_t0_b0", T, "complete RegisterPublisher frame, 0 payload bytes", timeout=1800),
         _p("c06::c06_frame_t1_b1", T, "complete RegisterSubscriber frame, 1 arbitrary payload byte", timeout=1800),
         _p("c06::c06_frame_t4_b0", Q, "complete Message frame, 0 payload bytes", timeout=1800),
+        _p("c06::c06_frame_t4_b1", T, "complete Message frame, 1 arbitrary payload byte (either Option tag, then truncated)", timeout=4000),
+        _p("c06::c06_frame_t4_none_b0", Q, "complete Message frame: None tag only"),
+        _p("c06::c06_frame_t4_none_b4", Q, "complete Message frame: None tag + 4 arbitrary bytes (length prefix cut)"),
+        _p("c06::c06_frame_t4_none_b8", Q, "complete Message frame: None tag + 8 arbitrary bytes (every message length prefix, no message bytes)"),
+        _p("c06::c06_frame_t4_none_b10", Q, "complete Message frame: None tag + 10 arbitrary bytes (every length prefix, up to 2 message bytes)"),
         _p("c06::c06_frame_t5_b4", Q, "complete BatchMessage frame, 4 arbitrary bytes"),
         _p("c06::c06_frame_t6_b4", Q, "complete Error frame, 4 arbitrary bytes", timeout=1800),
         _p("c06::c06_frame_t6_b12", T, "complete Error frame, 12 arbitrary bytes", timeout=3000, mem_gb=14),
@@ -357,11 +362,12 @@ PROPS["C02"] = {
               "reply per header-menu entry (None, {}, cid 0, cid 1, unknown cid, malformed cid, cid+req_id, req_id only; symbolic payload byte): the reply "
               "reaches exactly the requestor named by cid, once, with the routing tag stripped and payload and remaining headers intact; every other case "
               "is rejected with Err and delivered nowhere; no sink is handed a frame without having answered Ready; Pending only while a healthy sink is "
-              "pending. NOT covered: the request/reply topic router's poll loop (origin tagging of requests, the overwrite window for replies) - its "
+              "pending; a failing requestor sink is evicted and never surfaces as the router's own error. NOT covered: the request/reply topic router's poll loop (origin tagging of requests, the overwrite window for replies) - its "
               "Layer-T harnesses exist (reqrep_t) but do not finish within the time available to a check."),
     "note": NOTE_R,
-    "obligations": ROUTER_S,
-    "bounds": {"quick": "2 requestors, one reply per harness, 8 header-map shapes", "thorough": "adds 3 requestors"},
+    # one failing-requestor harness as well: another requestor's failure must not disturb the exchange (seed C02-c)
+    "obligations": ROUTER_S + ROUTER_FAULTS_S[:1],
+    "bounds": {"quick": "2 requestors, one reply per harness, 8 header-map shapes; one harness where any requestor sink operation may fail", "thorough": "adds 3 requestors"},
     "outside": "reqrep::Topic::poll; std HashMap itself; symbolic header keys/values; more than 3 requestors",
 }
 
